@@ -12,10 +12,22 @@ mod error;
 mod future;
 mod signal;
 
+/// Verification seams, compiled only under `--cfg kanal_verif` (deterministic
+/// simulation, see /verif). With the cfg off nothing here exists.
+#[cfg(kanal_verif)]
+#[doc(hidden)]
+pub mod verif {
+    pub use kanal_verif_rt as rt;
+    pub use kanal_verif_rt::{core, std};
+}
+
 pub use error::*;
 #[cfg(feature = "async")]
 pub use future::*;
 
+#[cfg(kanal_verif)]
+#[allow(unused_imports)]
+use crate::verif::{core, std};
 #[cfg(feature = "async")]
 use core::mem::transmute;
 use core::{
